@@ -48,6 +48,29 @@ func main() {
 		}
 		r := selftest(repo, verif, id, baseOpen)
 		fmt.Printf("applied=%v caught=%v missed=%v skipped=%v errors=%v\n", r["applied"], r["caught"], r["missed"], r["skipped"], r["errors"])
+	case "errsweep":
+		// exploration aid: call sites whose error result is dropped, for callees matching the regexp
+		p, err := eng.Load(repo, nil)
+		if err != nil {
+			fmt.Println(err)
+			os.Exit(1)
+		}
+		c := eng.NewCtx("SWEEP", p)
+		c.Clause("R11", "sweep")
+		n := 0
+		for _, fn := range p.Funcs {
+			for _, cl := range eng.Calls(fn, os.Args[2]) {
+				sig := cl.Common().Signature()
+				if sig.Results().Len() == 0 || sig.Results().At(sig.Results().Len()-1).Type().String() != "error" {
+					continue
+				}
+				n++
+				if !c.ErrChecked(fn, cl) {
+					fmt.Printf("%s\t%s\t%s\n", eng.FuncName(fn), p.Pos(cl.Pos()), eng.InstrStr(cl))
+				}
+			}
+		}
+		fmt.Printf("%d call sites\n", n)
 	case "obls":
 		os.Exit(obls(repo, os.Args[2]))
 	case "manifest":
